@@ -83,6 +83,21 @@ def finite_model(est):
     return None
 
 
+def centre_rows(m, kind):
+    """the reported cluster centres as prepared samples, when they are valid data for the module"""
+    if kind == "ART1":
+        return None
+    try:
+        cen = np.array([np.asarray(c, dtype=float).ravel() for c in m.get_cluster_centers()], dtype=float)
+        if cen.ndim != 2 or not np.all(np.isfinite(cen)):
+            return None
+        rows = np.hstack([cen, 1.0 - cen]) if kind == "Fuzzy" else cen
+        m.validate_data(rows)
+        return rows
+    except (AssertionError, NotImplementedError, ValueError):
+        return None
+
+
 def run_elem(rng):
     kind = rng.choice(K.KINDS)
     d = rng.choice([1, 2, 3]) if kind in ("Bayes", "Quad") else rng.choice([1, 2, 3, 5])
@@ -125,6 +140,15 @@ def run_elem(rng):
             if bad:
                 return {"signature": f"{kind}/nonfinite", "text": f"{kind}: {bad} after training", "replay": rep}, rep
             yp = m.predict(X)
+            # samples that coincide with the centre of a (grown) category: feed the reported centres back
+            rows = centre_rows(m, kind)
+            if rows is not None:
+                rep["then_partial_fit_centres"] = rows.tolist()
+                m.partial_fit(rows, match_tracking=mode, epsilon=eps)
+                bad = finite_model(m)
+                if bad:
+                    return {"signature": f"{kind}/nonfinite", "text": f"{kind}: {bad} after presenting the reported cluster centres as samples", "replay": rep}, rep
+                m.predict(rows)
             # activations / match values stay finite
             for x in X[:4]:
                 for w in m.W[:4]:
